@@ -343,6 +343,15 @@ func registerIntrinsics(in *Interp) {
 		}
 		return in.externCalls[i]
 	}
+	I["vSetField0"] = func(in *Interp, a []Value, _ ssa.CallInstruction) Value {
+		to := a[0].(Iface)
+		p, ok := to.V.(Ptr)
+		if !ok || p.C == nil || len(p.C.Kids) == 0 {
+			in.unmodelled("vSetField0: target is not a pointer to a struct")
+		}
+		in.store(p.C.Kids[0], a[1].(Iface).V)
+		return nil
+	}
 	I["vFailNative"] = func(in *Interp, a []Value, _ ssa.CallInstruction) Value { return nil }
 	I["vSymbolic"] = func(in *Interp, a []Value, _ ssa.CallInstruction) Value { return in.B.True() }
 }
